@@ -199,6 +199,10 @@ fn endpoint_resp(a: &[Value]) -> R {
         "fed_get_event" => resp::<f::event::get_event::v1::Response>(a),
         "fed_server_keys" => resp::<f::discovery::get_server_keys::v2::Response>(a),
         "fed_make_join" => resp::<f::membership::prepare_join_event::v1::Response>(a),
+        "fed_media" => resp::<f::authenticated_media::get_content::v1::Response>(a),
+        "fed_thumbnail" => resp::<f::authenticated_media::get_content_thumbnail::v1::Response>(a),
+        "register" => resp::<c::account::register::v3::Response>(a),
+        "capabilities" => resp::<c::discovery::get_capabilities::v3::Response>(a),
         other => Err(format!("unknown endpoint {other}")),
     }
 }
@@ -378,6 +382,9 @@ fn call(ep: &str, a: &[Value]) -> R {
             let ev = Raw::<Value>::from_json_string(arg_str(&a[1]).ok_or("utf8")?).map_err(|e| e.to_string())?;
             Ok(format!("{c:?} {}", c.applies(&FlattenedJson::from_raw(&ev), &ctx())))
         }
+        "restricted_json" => dbg(serde_json::from_slice::<ruma_events::room::join_rules::Restricted>(&arg_bytes(&a[0]))),
+        "join_rules_content" => dbg(serde_json::from_slice::<ruma_events::room::join_rules::RoomJoinRulesEventContent>(&arg_bytes(&a[0]))),
+        "member_count_is" => dbg(ruma_common::push::RoomMemberCountIs::from_str(&s0()?)),
         "push_match" => {
             // a = [key, pattern, event json]
             let ev = Raw::<Value>::from_json_string(arg_str(&a[2]).ok_or("utf8")?).map_err(|e| e.to_string())?;
